@@ -117,7 +117,9 @@ func (its *TransactionDatatype) BeginTransaction(
 	newTxnOp bool,
 ) *TransactionContext {
 	verifgate.At("tx.check", its.Key)
-	if its.isLocked && its.txCtx == txCtx {
+	// only a call that carries the context of the transaction that holds the lock is inside it; a nil
+	// context never is (isLocked and txCtx are read without the mutex and change while others hold it)
+	if txCtx != nil && its.isLocked && its.txCtx == txCtx {
 		return nil // called after DoTransaction() succeeds.
 	}
 	its.txCtx = its.setTransactionContextAndLock(tag)
@@ -183,11 +185,12 @@ func (its *TransactionDatatype) EndTransaction(txCtx *TransactionContext, withOp
 
 func (its *TransactionDatatype) unlock() {
 	if its.isLocked {
+		// the flag belongs to the holder of the mutex: clear it before the next holder can set it
+		its.isLocked = false
 		its.txCtx = nil
 		its.success = true
 		its.mutex.Unlock()
 		verifgate.At("tx.unlocked", its.Key)
-		its.isLocked = false
 	}
 }
 
